@@ -380,6 +380,18 @@ func TestQuantile(t *testing.T) {
 			}
 		}
 		c.Perm = gen.Perm(rt, n, "perm")
+		if rapid.IntRange(0, 2).Draw(rt, "nearlySorted") == 0 {
+			// the second order is the ascending one disturbed the way real data are (a sorted bulk
+			// with a few late values appended, two sorted runs, a rotation, ...)
+			idx := make([]int, n)
+			for i := range idx {
+				idx[i] = i
+			}
+			sort.SliceStable(idx, func(a, b int) bool { return c.Xs[idx[a]] < c.Xs[idx[b]] })
+			for i, j := range gen.NearlySortedPerm(rt, n, "nearly") {
+				c.Perm[i] = idx[j]
+			}
+		}
 		nq := rapid.IntRange(1, 12).Draw(rt, "nq")
 		for i := 0; i < nq; i++ {
 			var q float64
